@@ -152,6 +152,7 @@ Definition enc_prim (c : codec) (p : prim) : bytes * N :=
   end.
 
 (** * Stateful encoder *)
+Definition P_Unreachable : N := 1.
 Definition E_EncodeText : N := 2.
 Definition E_Unmodelled : N := 99.   (* float to text: not modelled *)
 
@@ -196,7 +197,15 @@ Definition int_text (p : prim) : option bytes :=
   | _ => None
   end.
 
-Definition P_Unreachable : N := 1.
+(* the regular (non-text) path of [encode_primitive_element] *)
+Definition enc_binary (c : codec) (t : tag) (v : vr) (p : prim) : outcome bytes :=
+  let '(val, count) := enc_prim c p in
+  match st_enc_header c t v (calc_byte_len p mod 4294967296) with
+  | Ok h =>
+      let pad := match v with DA | DT | TM => 32 | _ => 0 end in
+      Ok (h ++ val ++ (if N.odd count then [pad] else []))
+  | Err e => Err e | Panic w => Panic w
+  end.
 
 (** [encode_primitive_element]: all bytes written for one primitive element. *)
 Definition enc_prim_element (c : codec) (t : tag) (v : vr) (p : prim) : outcome bytes :=
@@ -210,11 +219,12 @@ Definition enc_prim_element (c : codec) (t : tag) (v : vr) (p : prim) : outcome 
   | _ =>
       match v with
       | DS | IS =>
-          (* encode_element_as_text *)
+          (* numeric (or empty) values of DS/IS go through encode_element_as_text;
+             dates, times and tags take the regular path *)
           match p with
           | PEmpty => st_enc_header c t v 0
           | PF32 _ | PF64 _ => Err E_Unmodelled
-          | PDate _ | PTime _ | PDateTime _ | PTags _ => Panic P_Unreachable
+          | PDate _ | PTime _ | PDateTime _ | PTags _ => enc_binary c t v p
           | _ =>
               match int_text p with
               | Some txt =>
@@ -224,14 +234,7 @@ Definition enc_prim_element (c : codec) (t : tag) (v : vr) (p : prim) : outcome 
               | None => Panic P_Unreachable
               end
           end
-      | _ =>
-          let '(val, count) := enc_prim c p in
-          match st_enc_header c t v (calc_byte_len p mod 4294967296) with
-          | Ok h =>
-              let pad := match v with DA | DT | TM => 32 | _ => 0 end in
-              Ok (h ++ val ++ (if N.odd count then [pad] else []))
-          | Err e => Err e | Panic w => Panic w
-          end
+      | _ => enc_binary c t v p
       end
   end.
 
